@@ -140,6 +140,7 @@ class AssumeH(Harness):
     def ensures(self, c, st, res):
         return [(n, e(st["self"], res, c.d)) for n, e in ASSUME_ENSURES]
 
+
     def concretise(self, case, k, model, c, st):
         return concretise_assume(case, k, model, c, st)
 
@@ -258,6 +259,33 @@ class VariableAssumeH(Harness):
     def ensures(self, c, st, res):
         return [(n, e(st["self"], res, c.d)) for n, e in ASSUME_ENSURES]
 
+    def concretise(self, case, k, model, c, st):
+        return _concretise_variable(model, c, st)
+
+    def replay(self, w):
+        """the leaf clauses natively: assume(d) has the interval d gives the leaf (its bounds when d is silent), keeps the id,
+        and evaluating the result under a further e (disjoint from d) equals evaluating the leaf under d | e"""
+        import puan
+        lo, hi = w["lo"], max(w["lo"], w["hi"])
+        mk = lambda: puan.variable("v", (lo, hi))
+        d = {"v": _val(w["d"])} if w["d"] else {}
+        e = {"v": _val(w["e"])} if (w["e"] and not w["d"]) else {}
+        want = (w["d"]["lo"], w["d"]["hi"]) if w["d"] else (lo, hi)
+        violated, detail = [], {"variable": ["v", lo, hi], "d": repr(d), "e": repr(e)}
+        res = mk().assume(dict(d))
+        got = tuple(res.bounds.as_tuple())
+        if got != want:
+            violated.append("post.bounds"); detail.update(got=ints(res.bounds), want=list(want))
+        if not (got[0] <= got[1]):
+            violated.append("post.inv")
+        if res.id != "v":
+            violated.append("post.id")
+        one = mk().assume(dict(d)).evaluate(dict(e))
+        two = mk().evaluate({**d, **e})
+        if tuple(one.as_tuple()) != tuple(two.as_tuple()):
+            violated.append("post.c07"); detail.update(assume_then_evaluate=ints(one), evaluate_union=ints(two))
+        return {"violated": violated, "detail": detail}
+
 
 class VariableEvaluateH(Harness):
     name = "variable.evaluate"
@@ -276,6 +304,23 @@ class VariableEvaluateH(Harness):
 
     def ensures(self, c, st, res):
         return [("post.bounds", bounds_eq(res, ival(st["self"], c.d)))]
+
+    def concretise(self, case, k, model, c, st):
+        return _concretise_variable(model, c, st)
+
+    def replay(self, w):
+        import puan
+        lo, hi = w["lo"], max(w["lo"], w["hi"])
+        d = {"v": _val(w["d"])} if w["d"] else {}
+        want = (w["d"]["lo"], w["d"]["hi"]) if w["d"] else (lo, hi)
+        res = puan.variable("v", (lo, hi)).evaluate(dict(d))
+        bad = tuple(res.as_tuple()) != want
+        return {"violated": ["post.bounds"] if bad else [], "detail": {"variable": ["v", lo, hi], "d": repr(d), "got": ints(res), "want": list(want)}}
+
+
+def _concretise_variable(model, c, st):
+    vid = model.eval(st["self"].id.t, model_completion=True)
+    return {"lo": _mv(model, z3.Int("v.lo")), "hi": _mv(model, z3.Int("v.hi")), "d": _entry(model, c.d, vid), "e": _entry(model, c.e, vid)}
 
 
 # ------------------------------------------------------------------------------------------------------------------
